@@ -87,12 +87,15 @@ structure RegOK (p : Pool) : Prop where
   cpl : p.lost = false → ∀ (t : Nat) (tk : PTask), p.tasks[t]? = some tk → tk.released = false →
           t ∈ p.running ∨ t ∈ p.cancelledR
 
-structure Good (cap : Cap) (p : Pool) : Prop where
+structure Good (cap : Cap) (L : Bool) (p : Pool) : Prop where
   slot : SlotOK cap p
   phase : PhaseOK p
   reg : RegOK p
   grp : GroupsOK p
   life : LifeOK p
+  /-- the strict variant (`L = false`): no task has been lost and no flush / gather_and_close / until_closed call was ever made -/
+  ll : L = false → p.lost = false
+  al : L = false → p.apis = []
 
 /-- `q` is `p` up to changes that neither move a slot nor put a task (back) into a slot-holding phase -/
 structure Tame (p q : Pool) : Prop where
@@ -106,6 +109,7 @@ structure Tame (p q : Pool) : Prop where
   wnil : p.sem.waiters = [] → q.sem.waiters = []
   gfl : (flat q.groups).Sublist (flat p.groups)
   soft : ∀ (t : Nat) (tk' : PTask), q.tasks[t]? = some tk' → ∃ tk : PTask, p.tasks[t]? = some tk ∧ tk'.soft = tk.soft
+  apl : q.apis.length = p.apis.length
 
 theorem Tame.pt {p q : Pool} (h : Tame p q) (t : Nat) (tk' : PTask) (ht : q.tasks[t]? = some tk') :
     ∃ tk : PTask, p.tasks[t]? = some tk ∧ tk'.released = tk.released ∧ (tk'.phase = tk.phase ∨ NYR tk'.phase = false) := by
@@ -169,11 +173,11 @@ theorem getElem?_modify_some {α} (l : List α) (t i : Nat) (f : α → α) (y :
 /-! ### Tame: algebra -/
 
 theorem Tame.refl (p : Pool) : Tame p p :=
-  ⟨rfl, rfl, rfl, rfl, rfl, rfl, rfl, fun h => h, List.Sublist.refl _, fun _ tk' h => ⟨tk', h, rfl⟩⟩
+  ⟨rfl, rfl, rfl, rfl, rfl, rfl, rfl, fun h => h, List.Sublist.refl _, fun _ tk' h => ⟨tk', h, rfl⟩, rfl⟩
 
 theorem Tame.trans {p q r : Pool} (h1 : Tame p q) (h2 : Tame q r) : Tame p r := by
   refine ⟨h2.val.trans h1.val, h2.grants.trans h1.grants, h2.len.trans h1.len, h2.run.trans h1.run,
-    h2.can.trans h1.can, h2.fin.trans h1.fin, h2.lost.trans h1.lost, fun h => h2.wnil (h1.wnil h), h2.gfl.trans h1.gfl, ?_⟩
+    h2.can.trans h1.can, h2.fin.trans h1.fin, h2.lost.trans h1.lost, fun h => h2.wnil (h1.wnil h), h2.gfl.trans h1.gfl, ?_, h2.apl.trans h1.apl⟩
   intro t tk'' h
   obtain ⟨tk', hq, e2⟩ := h2.soft t tk'' h
   obtain ⟨tk, hp, e1⟩ := h1.soft t tk' hq
@@ -269,8 +273,18 @@ theorem Tame.life {p q : Pool} (h : Tame p q) (hl : LifeOK p) : LifeOK q := by
   obtain ⟨tk, a, b⟩ := h.soft t tk' ht
   rw [b, h.lost]; exact hl t tk a
 
-theorem Tame.good {cap : Cap} {p q : Pool} (h : Tame p q) (hg : Good cap p) : Good cap q :=
-  ⟨h.slot hg.slot, h.phase hg.phase, h.reg hg.reg, h.grp hg.grp, h.life hg.life⟩
+/-- the two extra clauses of the strict variant, as a bundle -/
+def Strict (L : Bool) (p : Pool) : Prop := (L = false → p.lost = false) ∧ (L = false → p.apis = [])
+
+theorem Good.strict {cap : Cap} {L : Bool} {p : Pool} (hg : Good cap L p) : Strict L p := ⟨hg.ll, hg.al⟩
+
+theorem Strict.of_eq {L : Bool} {p q : Pool} (h : Strict L p) (h1 : q.lost = p.lost) (h2 : q.apis = p.apis) : Strict L q :=
+  ⟨fun hl => by rw [h1]; exact h.1 hl, fun hl => by rw [h2]; exact h.2 hl⟩
+
+theorem Tame.good {cap : Cap} {L : Bool} {p q : Pool} (h : Tame p q) (hg : Good cap L p) : Good cap L q :=
+  ⟨h.slot hg.slot, h.phase hg.phase, h.reg hg.reg, h.grp hg.grp, h.life hg.life,
+    fun hl => by rw [h.lost]; exact hg.ll hl,
+    fun hl => List.eq_nil_of_length_eq_zero (by rw [h.apl, hg.al hl]; rfl)⟩
 
 /-- released flag of a task is preserved along a tame change -/
 theorem Tame.released {p q : Pool} (h : Tame p q) (t : Nat) (tk : PTask) (hp : p.tasks[t]? = some tk) :
@@ -284,8 +298,9 @@ theorem Tame.released {p q : Pool} (h : Tame p q) (t : Nat) (tk : PTask) (hp : p
 theorem tame_of_eq (p q : Pool) (hs : q.sem = p.sem) (ht : q.tasks = p.tasks)
     (h1 : q.running = p.running := by rfl) (h2 : q.cancelledR = p.cancelledR := by rfl)
     (h3 : q.ended = p.ended := by rfl) (h4 : q.lost = p.lost := by rfl)
-    (h5 : (flat q.groups).Sublist (flat p.groups) := by exact List.Sublist.refl _) : Tame p q := by
-  refine ⟨by rw [hs], by rw [hs], by rw [ht], h1, h2, h3, h4, by rw [hs]; exact fun h => h, h5, ?_⟩
+    (h5 : (flat q.groups).Sublist (flat p.groups) := by exact List.Sublist.refl _)
+    (h6 : q.apis.length = p.apis.length := by rfl) : Tame p q := by
+  refine ⟨by rw [hs], by rw [hs], by rw [ht], h1, h2, h3, h4, by rw [hs]; exact fun h => h, h5, ?_, h6⟩
   intro t tk' h; rw [ht] at h; exact ⟨tk', h, rfl⟩
 
 namespace Pool
@@ -310,7 +325,7 @@ namespace Pool
 /-- a task update that changes only soft fields -/
 theorem tame_modTask (p : Pool) (t : Nat) (f : PTask → PTask)
     (hs : ∀ x, (f x).soft = x.soft := by intro x; rfl) : Tame p (p.modTask t f) := by
-  refine ⟨rfl, rfl, by simp [modTask], rfl, rfl, rfl, rfl, fun h => h, List.Sublist.refl _, ?_⟩
+  refine ⟨rfl, rfl, by simp [modTask], rfl, rfl, rfl, rfl, fun h => h, List.Sublist.refl _, ?_, rfl⟩
   intro i tk' h
   obtain ⟨x, hx, rfl⟩ := getElem?_modify_some p.tasks t i f tk' h
   refine ⟨x, hx, ?_⟩
@@ -319,7 +334,8 @@ theorem tame_modTask (p : Pool) (t : Nat) (f : PTask → PTask)
   · rfl
 
 theorem tame_modReq (p : Pool) (m f) : Tame p (p.modReq m f) := tame_of_eq _ _ rfl rfl
-theorem tame_modApi (p : Pool) (m f) : Tame p (p.modApi m f) := tame_of_eq _ _ rfl rfl
+theorem tame_modApi (p : Pool) (m f) : Tame p (p.modApi m f) :=
+  tame_of_eq _ _ rfl rfl rfl rfl rfl rfl (List.Sublist.refl _) (by simp [modApi])
 theorem tame_modGather (p : Pool) (m f) : Tame p (p.modGather m f) := tame_of_eq _ _ rfl rfl
 theorem tame_emitRef (p : Pool) (r) : Tame p (p.emitRef r) := tame_of_eq _ _ rfl rfl
 theorem tame_logEv (p : Pool) (r) : Tame p (p.logEv r) := tame_of_eq _ _ rfl rfl
@@ -384,7 +400,7 @@ theorem grantsL_cancelWaiterL (m : Nat) (ws : List Waiter) : grantsL (cancelWait
 theorem tame_cancelPoolWaiter (p : Pool) (m : Nat) :
     Tame p ({ p with sem := { p.sem with waiters := cancelWaiterL m p.sem.waiters } } : Pool) :=
   ⟨rfl, grantsL_cancelWaiterL m _, rfl, rfl, rfl, rfl, rfl, fun h => by simp [h, cancelWaiterL], List.Sublist.refl _,
-   fun _ tk' h => ⟨tk', h, rfl⟩⟩
+   fun _ tk' h => ⟨tk', h, rfl⟩, rfl⟩
 
 theorem tame_metaCancel (p : Pool) (m) : Tame p (p.metaCancel m) := by
   unfold metaCancel
